@@ -80,13 +80,16 @@ class Executor(Evaluator):
             f = stmt.value.func
             if isinstance(f, ast.Attribute) and isinstance(f.value, ast.Name) and f.value.id == "logger":
                 return [(st, ("next",))]
-            return [(s, ("next",)) for s, _v in self.call_multi(stmt.value, st)]
+            return [(s, ("raise", _v.name) if isinstance(_v, RaiseV) else ("next",)) for s, _v in self.call_multi(stmt.value, st)]
         self.eval(stmt.value, st)
         return [(st, ("next",))]
 
     def s_Assign(self, stmt, st):
         out = []
         for s, v in self.eval_multi(stmt.value, st):
+            if isinstance(v, RaiseV):
+                out.append((s, ("raise", v.name)))
+                continue
             if isinstance(v, AExpr):
                 tname = stmt.targets[0].id if isinstance(stmt.targets[0], ast.Name) else "tmp"
                 v = self.materialize(s, v, tname)
@@ -177,7 +180,7 @@ class Executor(Evaluator):
         if stmt.value is None:
             return [(st, ("return", None, stmt.lineno))]
         for s, v in self.eval_multi(stmt.value, st):
-            out.append((s, ("return", v, stmt.lineno)))
+            out.append((s, ("raise", v.name) if isinstance(v, RaiseV) else ("return", v, stmt.lineno)))
         return out
 
     def s_Break(self, stmt, st):
@@ -187,7 +190,30 @@ class Executor(Evaluator):
         return [(st, ("continue",))]
 
     def s_Raise(self, stmt, st):
-        return [(st, ("raise",))]
+        e = stmt.exc
+        name = ast.unparse(e.func) if isinstance(e, ast.Call) else (ast.unparse(e) if e is not None else "")
+        return [(st, ("raise", name))]
+
+    def s_Try(self, stmt, st):
+        if stmt.finalbody or stmt.orelse:
+            raise Unsupported("try/finally or try/else")
+        out = []
+        for s, oc in self.exec_block(stmt.body, st):
+            if oc[0] != "raise":
+                out.append((s, oc))
+                continue
+            handled = False
+            for h in stmt.handlers:
+                hname = ast.unparse(h.type) if h.type is not None else None
+                if hname is None or hname == oc[1] or hname.split(".")[-1] == (oc[1] or "").split(".")[-1] or hname in ("Exception", "BaseException"):
+                    if h.name:
+                        s.env[h.name] = Opaque("exception")
+                    out.extend(self.exec_block(h.body, s))
+                    handled = True
+                    break
+            if not handled:
+                out.append((s, oc))
+        return out
 
     def s_Assert(self, stmt, st):
         c = truth(self.eval(stmt.test, st))
@@ -577,6 +603,14 @@ class Executor(Evaluator):
         return self.inline_call(fi, args, st)
 
     unroll_inline_all = False
+
+    def list_repeat(self, st, elems, n):
+        dtype = "bool" if all(isinstance(e, bool) for e in elems) else "i64"
+        if len(elems) != 1:
+            raise Unsupported("list repetition of several elements")
+        obj = ArrObj("list", dtype, [as_int(n)])
+        st.heap[obj.id] = z3.K(INT, zbool(elems[0]) if dtype == "bool" else zint(elems[0]))
+        return Arr(obj)
 
     def inline_call(self, fi, args, st):
         if st.depth > 6:
